@@ -14,6 +14,11 @@ func init() {
 	Registry["C13"] = Spec{
 		Pkgs: map[string][]string{"v2": {"resolve", "gqlds"}},
 		Run:  runC13,
+		Thorough: func(r *fw.Run) {
+			workspaceWhoMayCall(r, []wsCallRule{
+				{Rule: "C13-T1", What: "resolve.SubscriptionDataSource.Start is called only from Resolver.addSubscription (the goroutine of a newly created trigger)", Callees: []string{"resolve:SubscriptionDataSource.Start"}, Allowed: []string{"resolve:Resolver.addSubscription"}, Why: "a subscription source is started from outside the trigger registry: the upstream is not shared, not counted and never cleaned up with the trigger", Expected: 1},
+			})
+		},
 		Explanation: "Decides the structural half of 'triggers are shared by input+headers, started once, always cleaned up': must-lock-sets (with inter-procedural entry sets) show the trigger/subscription registries are only touched under Resolver.mu (and trigger.subscriptions under both locks for writes); " +
 			"the acquired-while-holding relation stays inside updater.mu > Resolver.mu > trigger.mu and client I/O / cancel functions / closeSubs run with no registry lock held; every field of a removal result (removed, toClose, cancel, initialized) is consumed on all paths at all call sites; " +
 			"registry insertions are paired with the subscription counter, TriggerCountInc with initialized.Store(true); the trigger id derives from the input hash and the headers hash; Source.Start has one call site, under a detached context, with tear-down on its error edge; " +
